@@ -61,3 +61,102 @@ def route(topology: str, n: int, stride: int, multicast: bool):
     if topology == "all_to_all":
         return switch_routes(n, multicast)
     raise ValueError(topology)
+
+
+# ---------------------------------------------------------------------------------------------
+# Nested fanouts (end-to-end family of C30)
+#
+# A mapping distributes one tensor over the processing elements through a NEST of spatial
+# fanouts, outermost first.  Level l = (dim, n, unicast, volume):
+#   dim      name of the mesh axis the fanout runs along ("X", "Y", ...);
+#   n        number of destinations of the fanout;
+#   unicast  True: every destination gets its own tile; False: all get the same tile;
+#   volume   size of ONE tile delivered by this level (bits).
+# PE placement: along each axis the loop indices of the levels on that axis form a mixed-radix
+# number, outermost level most significant, so the destinations of a level are
+# stride = prod(n of the deeper levels on the same axis) positions apart and destination 0 sits
+# on the level's origin (it needs no transfer).  The source of the outermost level is the
+# all-zero coordinate (a non-distributed source).  Delivery is hierarchical and follows the
+# nest top to bottom ("the routing follows the order of the spatial nodes"): a level-l tile is
+# first brought to its destination, from where level l+1 fans out its parts.
+#
+# mesh: a link joins positions p and p+1 of one axis at fixed other coordinates; a tile moves
+#       along the axis of its level only; a shared tile crosses each link on the way to the
+#       farthest destination once.
+# all_to_all: every node has an up-link to and a down-link from the one switch; one delivery
+#       origin -> switch -> destination is ONE hop; the switch replicates a shared tile.
+#
+# Returns (total hop volume, {link: volume carried}).  Links carry the sum of everything routed
+# over them, whatever the direction (an output tile reduced towards the source uses the links
+# of the route its operands would use).
+# ---------------------------------------------------------------------------------------------
+
+def nest_routes(topology: str, levels, load=None):
+    if topology not in ("mesh", "all_to_all"):
+        raise ValueError(topology)
+    load = {} if load is None else load
+    dims = []
+    for d, _n, _u, _v in levels:
+        if d not in dims:
+            dims.append(d)
+    strides = []
+    for l, (d, _n, _u, _v) in enumerate(levels):
+        s = 1
+        for (d2, n2, _u2, _v2) in levels[l + 1:]:
+            if d2 == d:
+                s *= n2
+        strides.append(s)
+    total = [0]
+
+    def add(link, volume):
+        load[link] = load.get(link, 0) + volume
+
+    def fan(origin, l):
+        if l == len(levels):
+            return
+        d, n, unicast, volume = levels[l]
+        k = dims.index(d)
+        stride = strides[l]
+        dests = []
+        for i in range(n):
+            c = list(origin)
+            c[k] += i * stride
+            dests.append(tuple(c))
+        if topology == "mesh":
+            def link(p):
+                c = list(origin)
+                c[k] = p
+                return (d, tuple(c))            # joins position p and p+1 of axis d
+            if unicast:
+                for i in range(n):
+                    for p in range(origin[k], origin[k] + i * stride):
+                        add(link(p), volume)
+                        total[0] += volume
+            else:
+                for p in range(origin[k], origin[k] + (n - 1) * stride):
+                    add(link(p), volume)
+                    total[0] += volume
+        else:
+            shared_sent = False
+            for i in range(1, n):
+                total[0] += volume              # one switch traversal
+                add(("down", dests[i]), volume)
+                if unicast:
+                    add(("up", origin), volume)
+                elif not shared_sent:
+                    add(("up", origin), volume)
+                    shared_sent = True
+        for dst in dests:
+            fan(dst, l + 1)
+
+    fan(tuple(0 for _ in dims), 0)
+    return total[0], load
+
+
+def busiest_link_per_axis(topology: str, load):
+    """{axis: max volume on one link of that axis}; the switch counts as one axis 'switch'."""
+    out: dict = {}
+    for link, v in load.items():
+        axis = link[0] if topology == "mesh" else "switch"
+        out[axis] = max(out.get(axis, 0), v)
+    return out
